@@ -5,7 +5,7 @@ mod elem;
 mod exec;
 mod parse;
 
-use elem::{disarm, ledger_begin_line, ledger_reset, Elem, E, F, Z};
+use elem::{disarm, ledger_begin_line, ledger_reset, Elem, E, F, W, Z};
 use exec::{resolve, vals, Exec, Pos, St};
 use parse::{parse_line, receiver_ok, Cmd, ItKind, Last, Op};
 use std::cell::RefCell;
@@ -56,7 +56,7 @@ fn unsupported<T: Elem>(cmd: &Cmd) -> bool {
     let last = cmd.last();
     match &cmd.op {
         Op::CopyFromSlice(_) | Op::CopyWithin(..) | Op::FromTooDee(false, ..) => !T::IS_U32,
-        Op::Ser | Op::Roundtrip(_) => last != Last::Root && !T::IS_U32,
+        Op::Ser | Op::Roundtrip(_) => last != Last::Root && !T::VIEW_SER,
         Op::Iter(ItKind::IterRef, _) | Op::Iter(ItKind::IterMut, _) => last == Last::Ext,
         _ => false,
     }
@@ -106,6 +106,7 @@ fn parse_case(line: &str) -> Option<(String, &'static str)> {
         "elem=zst" => "zst",
         "elem=unit" => "unit",
         "elem=nan" => "nan",
+        "elem=wide" => "wide",
         _ => return None,
     };
     Some((t[1].to_string(), kind))
@@ -165,6 +166,7 @@ fn main() {
                 "cell" => run_case::<E>(&mut io),
                 "unit" => run_case::<()>(&mut io),
                 "nan" => run_case::<F>(&mut io),
+                "wide" => run_case::<W>(&mut io),
                 _ => run_case::<Z>(&mut io),
             };
         } else {
